@@ -776,4 +776,8 @@ func TestVerifC18(t *testing.T) { //nolint:gocognit,cyclop,maintidx
 	})
 	run.Set("max_auto_ids_in_one_pair", maxAssigned.Load())
 	run.Set("hook_passes", sched.AllPasses())
+	// scripted part (c18_script_test.go): two overlapping opens of one channel, serial because the yield point is global
+	sched.Perturb(0)
+	c18Scripted(run, sched, n, kit.N(10, 100))
+
 }
